@@ -47,6 +47,10 @@ func (s Step) String() string {
 		return fmt.Sprintf("craft index with %d entries", len(s.Entries))
 	case "file2dir":
 		return fmt.Sprintf("replace file %q by a directory holding %q", s.Path, s.Args[0])
+	case "copydir":
+		return fmt.Sprintf("copy directory %q to %q", s.Path, s.Args[0])
+	case "dir2file":
+		return fmt.Sprintf("replace directory %q by a regular file", s.Path)
 	case "tz":
 		return fmt.Sprintf("tz %+d min", s.TZ)
 	default:
@@ -191,6 +195,8 @@ type History struct {
 	StagedIDs  map[string]map[string]bool // path -> blob ids the harness computed from file bytes at add time
 	Commits    map[string]*CommitRec      // learned commits
 	Order      []string                   // commit ids in creation order
+	Contents   map[string][]string        // path -> distinct contents it has held (for "revert to older bytes")
+	LastStaged map[string]string          // path -> blob id of the bytes it had at the last successful add (re-synced when other commands change the entry)
 	Ignore     []string                   // lines of .goitignore
 	TZMin      int
 	Data       map[string]interface{} // per-profile scratch
@@ -205,7 +211,7 @@ type CommitRec struct {
 }
 
 func NewHistory() *History {
-	return &History{PathsEver: map[string]bool{}, EverStaged: map[string]bool{}, StagedIDs: map[string]map[string]bool{}, Commits: map[string]*CommitRec{}, Data: map[string]interface{}{}}
+	return &History{Contents: map[string][]string{}, LastStaged: map[string]string{}, PathsEver: map[string]bool{}, EverStaged: map[string]bool{}, StagedIDs: map[string]map[string]bool{}, Commits: map[string]*CommitRec{}, Data: map[string]interface{}{}}
 }
 
 // ---------------------------------------------------------------- execution
@@ -299,7 +305,24 @@ func (e *Exec) Do(st Step) error {
 	if st.Op == "file2dir" {
 		e.H.PathsEver[st.Path+"/"+st.Args[0]] = true
 	}
+	if st.Op == "dir2file" {
+		e.H.PathsEver[st.Path] = true
+	}
+	if st.Op == "copydir" {
+		for p := range c.Post.Work.Files {
+			if strings.HasPrefix(p, st.Args[0]+"/") {
+				e.H.PathsEver[p] = true
+			}
+		}
+	}
 	if st.Op == "write" {
+		seen := false
+		for _, c := range e.H.Contents[st.Path] {
+			seen = seen || c == string(st.Data)
+		}
+		if !seen && len(e.H.Contents[st.Path]) < 6 {
+			e.H.Contents[st.Path] = append(e.H.Contents[st.Path], string(st.Data))
+		}
 		e.H.PathsEver[st.Path] = true
 		if st.Path == ".goitignore" {
 			e.H.Ignore = strings.Split(strings.TrimSuffix(string(st.Data), "\n"), "\n")
@@ -344,6 +367,21 @@ func (e *Exec) apply(c *Ctx) error {
 		return b.WriteFile(st.Path, st.Data)
 	case "remove":
 		return b.Remove(st.Path)
+	case "dir2file":
+		if err := b.RemoveAll(st.Path); err != nil {
+			return err
+		}
+		return b.WriteFile(st.Path, st.Data)
+	case "copydir":
+		// a directory is copied to a new name: both then hold identical content (equal tree ids once committed)
+		for p, content := range e.Cur.Work.Files {
+			if strings.HasPrefix(p, st.Path+"/") {
+				if err := b.WriteFile(st.Args[0]+strings.TrimPrefix(p, st.Path), []byte(content)); err != nil {
+					return err
+				}
+			}
+		}
+		return nil
 	case "file2dir":
 		// a (tracked) file is replaced by a directory holding one new file
 		if err := b.Remove(st.Path); err != nil {
